@@ -6,7 +6,12 @@
    line:  effects <TAB> pinned <TAB> path(,) <TAB> op|op|... (the history, may be empty) <TAB> op
    op as in the C06 driver: kind,flavor,stack,force,noaction,args...  with ~ for an absent optional string
    answer:  ok#K:path;K:path;...  the record-level effects (Model/CrashDb.image of Db.effects) of the last op on the
-            state the model reaches by the history: K = W (write) R (remove) M (mkdir) X (rmdir);  or err:Kind *)
+            state the model reaches by the history: K = W (write) R (remove) M (mkdir) X (rmdir);  or err:Kind
+   line:  crashview <TAB> pinned <TAB> path(,) <TAB> history <TAB> op <TAB> j
+   answer:  what Model/CrashDb.read_db reports on the store built by the history (store_of) after the system calls
+            of the first j record-level effects of op under the temporary+rename protocol (crash_fs):
+            ok#n,v,flavor,dir,tag+tag;...#n,tag,flavor,v;...   one row per declaration with the tags that point at
+            it, then every tag assignment;  or reader-raises *)
 let dec_lines (s : Stdlib.String.t) = dec_list ',' dec_str s
 let enc_lines l = enc_list ',' enc_str l
 
@@ -66,6 +71,27 @@ let handle (f : Stdlib.String.t array) : Stdlib.String.t =
     (match effects_gen pinned d (dec_op f.(4)) with
      | Ok es -> "ok#" ^ Stdlib.String.concat ";" (Stdlib.List.map (fun e -> show_effect (image e)) es)
      | Err k -> "err:" ^ err_name k)
+  | "crashview" ->
+    let pinned = bool_of_field f.(1) in
+    let path = dec_strlist ',' f.(2) in
+    let hist = Stdlib.List.map dec_op (split_sep '|' f.(3)) in
+    let d = run pinned (empty_db path) hist in
+    let es = (match effects_gen pinned d (dec_op f.(4)) with Ok es -> es | Err _ -> []) in
+    let j = int_of_string f.(5) in
+    let rec take n l = if n <= 0 then [] else (match l with [] -> [] | x :: r -> x :: take (n - 1) r) in
+    let pos = Stdlib.List.length (lower_all lower_atomic (Stdlib.List.map image (take j es))) in
+    (match read_db path (crash_fs (store_of path hist) es (nat_of_int pos)) with
+     | Err _ -> "reader-raises"
+     | Ok d' ->
+       let a = view d' in
+       let rows = Stdlib.List.map (fun ((((s, n), v), fl), (dir, _)) ->
+           let tags = Stdlib.List.filter_map (fun ((((s', n'), t), fl'), v') ->
+               if s' = s && n' = n && fl' = fl && v' = v then Some (enc_str t) else None) a.atags in
+           Stdlib.String.concat "," [enc_str n; enc_str v; enc_str fl; enc_str dir; Stdlib.String.concat "+" tags])
+           a.adecls in
+       let tags = Stdlib.List.map (fun ((((_, n), t), fl), v) ->
+           Stdlib.String.concat "," [enc_str n; enc_str t; enc_str fl; enc_str v]) a.atags in
+       "ok#" ^ Stdlib.String.concat ";" rows ^ "#" ^ Stdlib.String.concat ";" tags)
   | "crash" ->
     let lower = if f.(1) = "atomic" then lower_atomic else lower_inplace in
     enc_fs (crash_state lower (dec_fs f.(2)) (Stdlib.List.map dec_effect (split_sep ';' f.(3)))
